@@ -439,9 +439,14 @@ var (
 var coldSeq int64
 
 // coldEpisode: reference in one fresh process, scheduled first use in another.
-func coldEpisode(ep *Episode, plan *simsched.Plan, fix, sites string, race bool, timeout time.Duration) (*coldOut, bool, string, error) {
+func coldEpisode(ep *Episode, plan *simsched.Plan, fix, sites string, race bool, timeout time.Duration, planRng ...*core.Rand) (*coldOut, bool, string, error) {
 	epj, _ := json.Marshal(ep)
 	plj, _ := json.Marshal(plan)
+	var planRngv *core.Rand
+	if len(planRng) > 0 {
+		planRngv = planRng[0]
+	}
+	_ = planRngv
 	ref, code, err := runProc(timeout, nil, os.Getenv("CONSIM_BIN_PLAIN"), "cold-ref", string(epj), fix, sites)
 	if err != nil || code != 0 {
 		return nil, false, "", fmt.Errorf("cold reference process failed: code=%d err=%v", code, err)
@@ -452,6 +457,24 @@ func coldEpisode(ep *Episode, plan *simsched.Plan, fix, sites string, race bool,
 	// depends on the calls before them)
 	var refOut coldOut
 	if json.Unmarshal([]byte(ref), &refOut) == nil {
+		if plan == nil {
+			// aim at statements the calls really execute (counts from the reference run)
+			st := loadSites(sites)
+			counts := make([][]uint32, len(ep.Tasks))
+			for t := range counts {
+				counts[t] = make([]uint32, len(st.Sites))
+				if t < len(refOut.Counts) {
+					for _, sc := range refOut.Counts[t] {
+						if int(sc[0]) < len(st.Sites) {
+							counts[t][sc[0]] = sc[1]
+						}
+					}
+				}
+			}
+			plan = genPlan(planRngv, ep, st, counts, refOut.Stats.Yields)
+			plj, _ = json.Marshal(plan)
+		}
+		refOut.Counts = nil
 		alone := make([][]string, len(ep.Tasks))
 		for t, calls := range ep.Tasks {
 			alone[t] = make([]string, len(calls))
@@ -510,7 +533,11 @@ func runCold(a *aggT, seed uint64, slot, nslots, n int, deadline int64, sites st
 			return
 		}
 		ep := genColdEpisode(seed, coldOffset+e)
-		plan := genColdPlan(core.Derive(seed, "consim", "cold-plan", e), ep, st)
+		prng := core.Derive(seed, "consim", "cold-plan", e)
+		plan := genColdPlan(prng, ep, st)
+		if e%2 == 1 {
+			plan = nil // drawn after the reference run, from the statements it executed
+		}
 		race := e%3 == 2
 		fix, err := coldFixtures(ep.FixSeed)
 		if err != nil {
@@ -519,7 +546,13 @@ func runCold(a *aggT, seed uint64, slot, nslots, n int, deadline int64, sites st
 			a.mu.Unlock()
 			return
 		}
-		co, raced, rlog, err := coldEpisode(ep, plan, fix, sites, race, 5*time.Minute)
+		co, raced, rlog, err := coldEpisode(ep, plan, fix, sites, race, 5*time.Minute, prng)
+		if co != nil && co.Plan != nil {
+			plan = co.Plan
+		}
+		if plan == nil {
+			plan = &simsched.Plan{Strategy: "unknown"}
+		}
 		a.mu.Lock()
 		switch {
 		case err != nil:
@@ -690,7 +723,7 @@ func check(tier string) int {
 	}
 	wg.Wait()
 	// cold-start episodes: two short-lived processes each, all cores
-	nCold := envInt("CONSIM_COLD_EPISODES", map[bool]int{false: 160, true: 1000000}[thorough])
+	nCold := envInt("CONSIM_COLD_EPISODES", map[bool]int{false: 400, true: 1000000}[thorough])
 	coldDeadline := int64(0)
 	if thorough {
 		coldDeadline = time.Now().Unix() + int64(envInt("VERIF_COLD_BUDGET_S", 5*60))
